@@ -243,6 +243,15 @@ def run_case(case, ctx):
     trN, fullN, errN, _ = _run(ctx, text, 10 ** 9)
     if errN or fullN != full:
         probs.append(("huge-timeout-differs", "timeout=1e9 gives different yields than timeout=0 (%s)" % errN))
+    # timeout=0 means no limit for the single-result call as well: it returns the best of the unlimited stream
+    trS, _, errS, resS = _run(ctx, text, 0, single=True)
+    mon.events["single_call_timeout0"] += 1
+    candS = [o for o in full if o is not None]
+    if errS:
+        probs.append(("raises", "ctparse(timeout=0): %s" % errS))
+    elif resS is None or (resS.resolution is None) != (not candS) or (candS and resS.score != max(o[2] for o in candS)):
+        probs.append(("single-call-timeout0-differs", "ctparse(timeout=0) returned %r, the unlimited stream holds %d candidates (best score %r)" % (
+            None if resS is None else (V.show(C.resv(resS)), resS.score), len(candS), max((o[2] for o in candS), default=None))))
     nreads = trN.now
     probs += [(t, "unlimited run: " + m) for t, m in check_trace(L, trN, nmatches)]
     if case["mode"] == "all" and nreads <= 1200:
